@@ -33,6 +33,7 @@ class ExecEnv:
         self.sim = sim
         self.tick_max = tick_max
         self.do_pickle = do_pickle
+        self.pickle_failed_keys = set()
         self.slow_keys = set(slow_keys)
         self.keyof = keyof or (lambda args: None)
         self.pools: list[SimPool] = []
@@ -158,17 +159,25 @@ def make_pool_class(env: ExecEnv, kind: str):
                 # interpreter-wide settings are the defaults of a fresh interpreter while the task runs
                 _sys.setrecursionlimit(1000)
             try:
-                if env.do_pickle:
+                do_pickle = env.do_pickle and kind == "process"  # threads share the objects themselves
+                if do_pickle:
                     fn, args, kwargs = pickle.loads(pickle.dumps((fn, args, kwargs)))
                 out = fn(*args, **kwargs)
-                if env.do_pickle:
-                    out = pickle.loads(pickle.dumps(out))
+                if do_pickle:
+                    try:
+                        out = pickle.loads(pickle.dumps(out))
+                    except BaseException:
+                        # what the worker sends back when its result cannot cross the process boundary
+                        env.pickle_failed_keys.add(ent["key"])
+                        env.sim.probe("result_could_not_be_pickled")
+                        raise
                 ent["out"] = ("ok", out)
             except BaseException as e:  # noqa: BLE001  what a worker process would send back
-                if env.do_pickle:
+                if env.do_pickle and kind == "process":
                     try:
                         e = pickle.loads(pickle.dumps(e))
                     except Exception as pe:  # noqa: BLE001
+                        env.pickle_failed_keys.add(ent["key"])
                         e = pe
                 ent["out"] = ("exc", e)
             finally:
